@@ -812,3 +812,34 @@ def run_string_buffers(prog, rep):
     if n < 2:
         raise AnalysisBroken('R-STRBUF: only %d string array parameters found' % n)
     return rule
+
+
+def run_replace_extent(prog, rep):
+    """a setter that overwrites a whole data set with a new list sizes the data set to the new list on every path that reuses it:
+    the only conditions allowed on the way to setExtent are 'the data set exists' (and the alias test of range dimensions)"""
+    rule = rep.rule('R-REPLACE-EXTENT', 'setters that replace the whole content of a data set (polynomial coefficients, ticks, H5Group::setData) set its extent to the new length whenever they reuse an existing data set (no "only grow" / "only if different" condition)', floor=3)
+    sem = Sem(prog)
+    n = 0
+    for f in sorted(prog.funcs.values(), key=lambda f: (f.file, f.line)):
+        if f.body is None or not f.q.startswith('nix::hdf5::'):
+            continue
+        se = [c for c in f.calls() if (c.callee or {}).get('name') == 'setExtent']
+        wr = [c for c in f.calls() if (c.callee or {}).get('name') == 'write']
+        od = [c for c in f.calls() if (c.callee or {}).get('name') == 'openData']
+        if not (wr and od) or not [p for p in f.params if 'vector' in p['type']]:
+            continue
+        key = '%s%s' % (re.sub(r'<.*?>', '<>', f.q), '')
+        if any(i.key.endswith(key) for i in rule.instances):
+            continue
+        n += 1
+        if not se:
+            rule.bad(key, rep.where(od[0]), f.label(), 'an existing data set is reused and overwritten without setting its extent to the new length: when the new list is shorter the old tail stays')
+            continue
+        facts = sem.facts_at(f, se[0].id)
+        extra = [t for t, pol in facts if not (isinstance(t, tuple) and t[0] == 'm' and t[1] in ('hasData', 'alias', 'hasGroup', 'operator bool')) and 'hasData' not in repr(t)[:40] and
+                 ('size' in repr(t) or 'nelms' in repr(t) or 'extent' in repr(t))]
+        rule.check(not extra, key, rep.where(se[0]), f.label(), 'setExtent(new length) whenever the data set exists',
+                   'setExtent is only called under %s: when it is skipped for a shorter list, the old elements behind the new ones stay in the data set and are read back' % [repr(t)[:80] for t in extra][:2])
+    if n < 3:
+        raise AnalysisBroken('R-REPLACE-EXTENT: only %d replacing setters found' % n)
+    return rule
